@@ -39,3 +39,20 @@ k("C09",
   "Outside: equality of resolve() with RFC 3986 5.2 (oxiri).",
   "regex -> SMT-LIB RegLan equivalence/inclusion decided by z3 (unbounded), witnesses replayed natively",
   "DESIGN.md 4 C09", level="proof")
+
+k("C04",
+  "Partial (abbreviation regexes only). The six patterns that decide when the Turtle pretty-printer writes a bare numeric/boolean literal or a prefixed name are "
+  "extracted from the current source and z3 5.1 decides, for strings of every length, that each language is included in the corresponding Turtle 1.1 terminal "
+  "(INTEGER, DECIMAL, DOUBLE, BOOLEAN, PN_LOCAL, PN_PREFIX): 6 obligations, unsat = proof. Witnesses are replayed through TurtleSerializer + the real parser.",
+  "Trusted: z3 regex theory, regex-syntax subset parser (validated vs the real regex crate each run), grammar transcription. Outside: the pretty-printer's graph "
+  "heuristics (labelled/lists/subject types) and Rio's parser.",
+  "regex -> SMT-LIB RegLan inclusion decided by z3 (unbounded), witnesses replayed through serializer+parser",
+  "DESIGN.md 4 C04", level="proof")
+
+k("C03",
+  "Split claim. (a) CBMC proves, for every valid UTF-8 string of <=3 (thorough 4) bytes, that quoted_string's output decodes back to the input under a transcription of the "
+  "W3C STRING_LITERAL_QUOTE grammar and contains no raw quote/CR/LF. (b) z3 proves for strings of every length that valid blank node labels and absolute IRIs are "
+  "grammatical where they are copied verbatim and that every BCP47 tag is constructible. (c) the parser half (Rio) is exercised only in the native replay of a corpus and of witnesses.",
+  "Trusted: Kani/CBMC, z3, grammar transcriptions. Outside: that Rio inverts the escaping beyond the corpus; strings longer than the bound; non-BCP47 tags accepted by LANG_TAG.",
+  "Kani/CBMC harness with decoder oracle + regex-language inclusion in z3 + native round-trip replay",
+  "DESIGN.md 4 C03")
